@@ -30,6 +30,8 @@
 //!      | 6 advance a ms | 7 inner readiness a (0 ready 1 pending 2 error)
 //!      | 8 call a while the inner service's call() panics
 //!      | 9 svc.algorithm().record_failure() | 10 svc.algorithm().record_success(0)
+//!      | 11 poll_ready by parked caller a (its own clone of the service, its own waker, kept)
+//!      | 12 has caller a's waker been woken since its last check? (91 / 90) | 13 caller a goes away (92)
 //!   trace = per event [code, in_flight(), limit()], then (all live futures dropped, inner ready)
 //!           [probe poll_ready code, in_flight(), limit()]; codes as in Model/Adaptive.v sv_step
 use std::cell::Cell;
@@ -69,6 +71,8 @@ static SCHED: Mutex<Sched> = Mutex::new(Sched {
     results: Vec::new(),
 });
 static CV: Condvar = Condvar::new();
+/// set when a worker completed a call without a single scheduled atomic step
+static UNSCHEDULED: std::sync::atomic::AtomicBool = std::sync::atomic::AtomicBool::new(false);
 
 fn lock() -> std::sync::MutexGuard<'static, Sched> {
     SCHED.lock().unwrap_or_else(|e| e.into_inner())
@@ -169,8 +173,15 @@ fn run_threads<O: Sync>(
                 TID.with(|t| t.set(i));
                 let _fin = Finish(i);
                 for c in prog {
+                    let s0 = lock().steps[i];
                     let r = std::panic::catch_unwind(std::panic::AssertUnwindSafe(|| call(obj, *c)));
-                    lock().results[i].push(r.unwrap_or(-777));
+                    let mut g = lock();
+                    if r.is_ok() && g.steps[i] == s0 {
+                        // every API call performs at least one atomic operation: this one never reached
+                        // the scheduler, so the code under test does not use the instrumented atomics
+                        UNSCHEDULED.store(true, std::sync::atomic::Ordering::SeqCst);
+                    }
+                    g.results[i].push(r.unwrap_or(-777));
                 }
             });
         }
@@ -295,6 +306,7 @@ impl Service<i128> for Inner2 {
 
 type Res = Result<i128, AdaptiveError<i128>>;
 const NCALLS: usize = 24;
+const NPARK: usize = 8;
 
 struct Gate {
     sh: Arc<InnerShared>,
@@ -320,6 +332,8 @@ fn run_service<A: ConcurrencyAlgorithm + 'static>(
     rt.block_on(async move {
         let (inner, Gate { sh, mode, call_panics }) = gated_inner();
         let mut svc = mk(inner);
+        // parked callers: a clone of the service and a waker of their own, made at their first check
+        let mut parked: Vec<Option<(AdaptiveService<Inner2, A>, Arc<Flag>)>> = (0..NPARK).map(|_| None).collect();
         let mut callers: Vec<Option<Manual<Res>>> = (0..NCALLS).map(|_| None).collect();
         let mut created = vec![false; NCALLS];
         let mut tr = Vec::new();
@@ -341,9 +355,17 @@ fn run_service<A: ConcurrencyAlgorithm + 'static>(
         };
         let evs: Vec<(i128, i128, i128)> =
             s[8.min(s.len())..].chunks(3).filter(|c| c.len() == 3).map(|c| (c[0], c[1], c[2])).collect();
-        for (op, a, b) in evs {
+        for (k, (op, a, b)) in evs.into_iter().enumerate() {
             let i = a.max(0) as usize;
-            let r: i128 = match op {
+            if op == 6 {
+                advance_ms(a.max(0) as u64).await;
+                settle().await;
+                tr.extend([60, svc.in_flight() as i128, svc.limit() as i128]);
+                continue;
+            }
+            // a panic that escapes the limiter's own code (poll_ready, call, dropping a future): the trace
+            // ends with [-999, index of the event] so that the monitor knows WHERE it happened
+            let res = std::panic::catch_unwind(std::panic::AssertUnwindSafe(|| -> i128 { match op {
                 1 => ready(&mut svc),
                 2 | 3 | 4 | 5 if i >= NCALLS => -2,
                 2 => {
@@ -382,13 +404,38 @@ fn run_service<A: ConcurrencyAlgorithm + 'static>(
                     }
                     _ => 59,
                 },
-                6 => {
-                    advance_ms(a.max(0) as u64).await;
-                    60
-                }
                 7 => {
                     mode.store(a as i64, Ordering::SeqCst);
                     70
+                }
+                11 => {
+                    let j = i % NPARK;
+                    if parked[j].is_none() {
+                        parked[j] = Some((svc.clone(), Arc::new(Flag(AtomicBool::new(false)))));
+                    }
+                    let (c, flag) = parked[j].as_mut().unwrap();
+                    flag.0.store(false, Ordering::SeqCst);
+                    let w = Waker::from(flag.clone());
+                    let mut cx = Context::from_waker(&w);
+                    match c.poll_ready(&mut cx) {
+                        Poll::Ready(Ok(())) => 11,
+                        Poll::Ready(Err(_)) => 12,
+                        Poll::Pending => {
+                            if flag.0.load(Ordering::SeqCst) {
+                                13
+                            } else {
+                                10
+                            }
+                        }
+                    }
+                }
+                12 => match parked[i % NPARK].as_ref() {
+                    Some((_, flag)) if flag.0.load(Ordering::SeqCst) => 91,
+                    _ => 90,
+                },
+                13 => {
+                    parked[i % NPARK] = None;
+                    92
                 }
                 // feedback reaching the shared algorithm without a call of this service
                 9 => {
@@ -417,6 +464,13 @@ fn run_service<A: ConcurrencyAlgorithm + 'static>(
                             Err(_) => 26,
                         }
                     }
+                }
+            }}));
+            let r = match res {
+                Ok(r) => r,
+                Err(_) => {
+                    tr.extend([-999, k as i128]);
+                    return tr;
                 }
             };
             settle().await;
@@ -451,6 +505,10 @@ fn run(s: &[i128]) -> Vec<i128> {
                     }
                     2 => {
                         c.record_successes(k.1.max(0) as usize);
+                        2
+                    }
+                    4 => {
+                        c.reset();
                         2
                     }
                     _ => c.limit() as i128,
@@ -622,8 +680,13 @@ fn run_threads_local<W>(
                 TID.with(|t| t.set(i));
                 let _fin = Finish(i);
                 for c in prog {
+                    let s0 = lock().steps[i];
                     let r = std::panic::catch_unwind(std::panic::AssertUnwindSafe(|| call(&mut w, *c)));
-                    lock().results[i].push(r.unwrap_or(-777));
+                    let mut g = lock();
+                    if r.is_ok() && g.steps[i] == s0 {
+                        UNSCHEDULED.store(true, Ordering::SeqCst);
+                    }
+                    g.results[i].push(r.unwrap_or(-777));
                 }
                 TID.with(|t| t.set(usize::MAX));
                 drop(w);
@@ -677,7 +740,18 @@ fn run_clones(s: &[i128]) -> Vec<i128> {
     tr
 }
 
+/// see c08.rs: threads that complete calls without reaching the scheduler cannot be judged
+fn run_checked(s: &[i128]) -> Vec<i128> {
+    UNSCHEDULED.store(false, Ordering::SeqCst);
+    let tr = run(s);
+    if UNSCHEDULED.load(Ordering::SeqCst) {
+        vec![-5]
+    } else {
+        tr
+    }
+}
+
 fn main() {
     tower_resilience_core::verif::set_hook(hook);
-    main_loop(run);
+    main_loop(run_checked);
 }
